@@ -1238,3 +1238,56 @@ class CreateSyntaxErrorViolation:
         return (result.rule_id == "srp.syntax-error" and result.file_path == path_text(context)
                 and result.line == (exc.lineno if exc.lineno else 1) and result.column == (exc.offset if exc.offset else 0)
                 and result.message == f"Syntax error: {exc.msg}")
+
+
+# ====================================================================================== bounded stand-in for the one
+# assumed piece of SRP decision logic (dict-of-lists grouping): NOT a proof, listed under `bounded` in the evidence
+from pyvc.api import custom  # noqa: E402
+
+
+@custom("c16-impl-map-bounded", props=["C16"])
+def c16_impl_map_bounded(ctx):
+    """ClassAnalyzer._build_impl_map (assumed contract: value impl_map_of(blocks), read through impl_group) is run
+    natively on every sequence of <= 5 impl blocks whose target type is one of A, B or missing: the map's entry for
+    every name (and the [] default for unknown / empty names) must be exactly the blocks targeting that name, in order."""
+    import itertools
+    import time
+    from pyvc.native import FakeNode, resolve_target
+    t0 = time.time()
+    try:
+        _, _, cls = resolve_target(CA + "ClassAnalyzer")
+        analyzer = cls()
+    except Exception as e:  # noqa
+        return [{"name": "c16-impl-map-bounded", "kind": "bounded", "verdict": "unknown", "note": f"cannot import: {e!r}"[:300],
+                 "tool": "cpython", "budget": "-", "cases": 0}]
+
+    def impl(i, name):
+        kids = [FakeNode(type="impl", text=b"impl", children=[])]
+        if name is not None:
+            kids.append(FakeNode(type="type_identifier", text=name.encode(), children=[]))
+        kids.append(FakeNode(type="declaration_list", text=b"{}", children=[]))
+        return FakeNode(type="impl_item", id=i, children=kids, text=None)
+
+    bad, cases = None, 0
+    for n in range(6):
+        for names in itertools.product([None, "A", "B"], repeat=n):
+            blocks = [impl(i, nm) for i, nm in enumerate(names)]
+            cases += 1
+            try:
+                got = analyzer._build_impl_map(blocks)
+                for key in ("", "A", "B", "C"):
+                    if got.get(key, []) != _native_group(blocks, key):
+                        bad = (list(names), key, [b.id for b in got.get(key, [])])
+                if bad is None and set(got) != {nm for nm in names if nm}:
+                    bad = (list(names), "keys", sorted(got))
+            except Exception as e:  # noqa
+                bad = (list(names), "exception", repr(e))
+            if bad:
+                break
+        if bad:
+            break
+    return [{"name": "c16-impl-map-bounded", "kind": "bounded", "verdict": "passed" if bad is None else "refuted",
+             "note": "" if bad is None else f"_build_impl_map on targets {bad[0]}: entry {bad[1]!r} -> {bad[2]}",
+             "tool": "cpython (exhaustive)", "budget": "all sequences of <= 5 impl blocks over targets {A, B, none}",
+             "cases": cases, "ms": round((time.time() - t0) * 1000, 1), "witness_confirmed": bad is not None,
+             "model_inputs": {"targets": bad[0]} if bad else None}]
